@@ -140,6 +140,20 @@ func classOfFirst(c byte) Kind {
 func vfH_c17_stream() {
 	n := vfLen
 	b := vfBytes(n)
+	if vfMode == 1 {
+		// structural alphabet: longer documents made of delimiters, a digit, a letter-free key (""), and a space
+		for i := range b {
+			c := b[i]
+			ok := vfOr(c == '{', c == '}')
+			ok = vfOr(ok, c == '[')
+			ok = vfOr(ok, c == ']')
+			ok = vfOr(ok, c == ',')
+			ok = vfOr(ok, c == ':')
+			ok = vfOr(ok, c == '1')
+			ok = vfOr(ok, c == '"')
+			vfAssume(ok)
+		}
+	}
 	ref, valid := refTokenize(b)
 	if vfNative() {
 		checkRefValid(b, valid)
